@@ -405,7 +405,7 @@ func readWARC(path string) (recs []warcRec, trailing string) {
 				rec.Err = "http: " + err.Error()
 			} else {
 				b, err := io.ReadAll(resp.Body)
-				if err != nil {
+				if err != nil && rec.Type != "revisit" { // a revisit record keeps the headers (with the original length) and omits the payload
 					rec.Err = "http body: " + err.Error()
 				}
 				rec.Status, rec.Len, rec.Sha1 = resp.StatusCode, len(b), sha1hex(b)
